@@ -382,6 +382,19 @@ class ExprIfThenElseExpander(IdentityMapper):
         rec_condition = self.rec(expr.condition, base_condition, base_deps,
                                  sub_condition_deps)
 
+        from dagrt.language import Assign
+
+        # The statements computing the branches are guarded by the flag, so
+        # the flag has to be set before them.
+        self.new_statements.append(
+            Assign(
+                assignee=flag.name,
+                assignee_subscript=(),
+                expression=rec_condition,
+                condition=base_condition,
+                id=if_stmt_id,
+                depends_on=base_deps | frozenset(sub_condition_deps)))
+
         sub_then_deps = []
         then_condition = flat_LogicalAnd(base_condition, flag)
         rec_then = self.rec(expr.then, then_condition,
@@ -392,16 +405,7 @@ class ExprIfThenElseExpander(IdentityMapper):
         rec_else = self.rec(expr.else_, else_condition,
                             base_deps | frozenset([if_stmt_id]), sub_else_deps)
 
-        from dagrt.language import Assign
-
         self.new_statements.extend([
-            Assign(
-                assignee=flag.name,
-                assignee_subscript=(),
-                expression=rec_condition,
-                condition=base_condition,
-                id=if_stmt_id,
-                depends_on=base_deps | frozenset(sub_condition_deps)),
             Assign(
                 assignee=tmp_result,
                 assignee_subscript=(),
